@@ -293,25 +293,28 @@ struct SlabHarness : HarnessBase {
 	// large_req: the request that may legitimately take a region of its own
 	void end_op(const std::string &what, bool alloc_like, size_t req, bool result_nonnull) {
 		asan_open();
+		// when map() was made to fail in this op, everything that goes wrong belongs to C04
+		bool failing = PS.fail_at >= 0 && PS.maps_this_op > PS.fail_at;
+		const char *P3 = failing ? "C04" : "C03", *P2 = failing ? "C04" : "C02";
 		PS.fail_at = -1;
 		if(g_mutex_held) { g_mutex_held = 0; fail("C04", "mutex-left-locked", "a pool mutex is still locked after " + what + " returned"); }
 		size_t used = pool().numUsedPages();
-		if(used > (size_t(1) << 40)) fail("C03", "pages-underflow", "numUsedPages() wrapped around");
+		if(used > (size_t(1) << 40)) fail(P3, "pages-underflow", "numUsedPages() wrapped around");
 		long delta = (long)used - (long)used_before;
 		long returned = 0;
 		for(auto &r : PS.returned) {
 			auto it = region_pages.find(r.base);
-			if(it == region_pages.end()) fail("C03", "protocol:unmap-untracked", "unmapped a region the harness has no record of");
+			if(it == region_pages.end()) fail(P3, "protocol:unmap-untracked", "unmapped a region the harness has no record of");
 			returned += it->second; region_pages.erase(it);
-			for(size_t bi = 0; bi < live.size(); bi++) if(bi != exempt) if(auto &b = live[bi]; b.p < r.base + r.len && r.base < b.p + b.size) fail("C03", "protocol:unmap-with-live-block", "a region was unmapped while a live block lies inside it");
+			for(size_t bi = 0; bi < live.size(); bi++) if(bi != exempt) if(auto &b = live[bi]; b.p < r.base + r.len && r.base < b.p + b.size) fail(P3, "protocol:unmap-with-live-block", "a region was unmapped while a live block lies inside it");
 		}
-		if(PS.taken.size() > 1) fail("C03", "protocol:two-maps", "one call mapped more than one region");
+		if(PS.taken.size() > 1) fail(P3, "protocol:two-maps", "one call mapped more than one region");
 		if(PS.taken.size() == 1) {
 			long credited = delta + returned;
 			auto &r = PS.taken[0];
 			long maxpages = (long)((r.len + Policy::pagesize - 1) / Policy::pagesize);
 			if(result_nonnull) {
-				if(credited <= 0 || credited > maxpages) fail("C03", "pages:credit-out-of-range", "taking a region of " + std::to_string(r.len) + " bytes changed numUsedPages() by " + std::to_string(credited));
+				if(credited <= 0 || credited > maxpages) fail(P3, "pages:credit-out-of-range", "taking a region of " + std::to_string(r.len) + " bytes changed numUsedPages() by " + std::to_string(credited));
 				region_pages[r.base] = credited;
 			}
 			bool small = (req ? req : 1) <= max_small;
@@ -321,10 +324,10 @@ struct SlabHarness : HarnessBase {
 				size_t live_in_class = 0; for(auto &b : live) if(b.size == cls && !b.large) live_in_class++;
 				// (the new block itself is not yet in `live`)
 				if(live_in_class != (size_t)slabs_of[cls] * per_slab[cls])
-					fail("C02", "footprint:slab-mapped-while-free-objects", "a new slab of class " + std::to_string(cls) + " was mapped while " + std::to_string(slabs_of[cls]) + " slab(s) hold only " + std::to_string(live_in_class) + " live blocks (" + std::to_string(per_slab[cls]) + " fit in one)");
+					fail(P2, "footprint:slab-mapped-while-free-objects", "a new slab of class " + std::to_string(cls) + " was mapped while " + std::to_string(slabs_of[cls]) + " slab(s) hold only " + std::to_string(live_in_class) + " live blocks (" + std::to_string(per_slab[cls]) + " fit in one)");
 				slabs_of[cls]++;
 			}
-		} else if(delta != -returned) fail("C03", "pages:drift", what + " changed numUsedPages() by " + std::to_string(delta) + " although regions worth " + std::to_string(returned) + " pages were returned and none taken");
+		} else if(delta != -returned) fail(P3, "pages:drift", what + " changed numUsedPages() by " + std::to_string(delta) + " although regions worth " + std::to_string(returned) + " pages were returned and none taken");
 		raise_pending();
 	}
 
